@@ -753,6 +753,14 @@ func (e *SpecEnv) call(s *SExpr) SVal {
 				return SVal{Ge(PBase(a.T), e.x.alloc0), boolT}
 			}
 			e.fail("fresh of %s", s.Args[1])
+		case "allocated":
+			// the pointer refers to an object allocated before the current state
+			evalArgs()
+			a := args[0]
+			if a.T.Sort == SSlice {
+				return SVal{Lt(PBase(SlPtr(a.T)), e.cur.alloc), boolT}
+			}
+			return SVal{And(Ge(PBase(a.T), IntLit(0)), Lt(PBase(a.T), e.cur.alloc)), boolT}
 		case "base":
 			evalArgs()
 			a := args[0]
@@ -842,6 +850,19 @@ func (e *SpecEnv) call(s *SExpr) SVal {
 			hn, hs := heapName(stringT), ArraySort(SPtr, SStr)
 			w.declare("SpecSeq", "(declare-sort SpecSeq 0)")
 			return SVal{w.UF("strlist", "SpecSeq", a.T, e.cur.Heap(hn, hs)), nil}
+		case "now":
+			// ghost clock (nanoseconds); the value at function entry is a constant
+			if c, ok := e.cur.cells["ghost.now"].(Term); ok {
+				return SVal{c, intT}
+			}
+			n0 := w.Const("now@0", SInt)
+			e.cur.cells["ghost.now"] = n0
+			if e.x != nil && e.x.entry != nil {
+				if _, ok := e.x.entry.cells["ghost.now"]; !ok {
+					e.x.entry.cells["ghost.now"] = n0
+				}
+			}
+			return SVal{n0, intT}
 		case "ns":
 			evalArgs()
 			return SVal{w.UF("time.ns", SInt, args[0].T), intT}
@@ -851,6 +872,18 @@ func (e *SpecEnv) call(s *SExpr) SVal {
 		case "held":
 			// held(mu-expression-text): lock ghost
 			e.fail("held() not supported here")
+		}
+		if gd, ok := e.u.eng.cs.Ghosts[fnx.Name]; ok && !e.isBound(fnx.Name) {
+			evalArgs()
+			if len(args) != len(gd.Params) {
+				e.fail("ghost %s: %d arguments, want %d", gd.Name, len(args), len(gd.Params))
+			}
+			h, gt := e.ghostHeap(gd)
+			t := h
+			for _, a := range args {
+				t = Select(t, a.T)
+			}
+			return SVal{t, gt}
 		}
 		if !e.isBound(fnx.Name) {
 			if pf, ok := e.u.eng.cs.Pures[fnx.Name]; ok {
@@ -1039,6 +1072,12 @@ func (e *SpecEnv) frameItem(item string) (res []FrameItem, err error) {
 		}
 		ptr := v.T
 		return []FrameItem{{heap: heapName(pt.Elem()), text: item, pred: func(p Term) Term { return And(Eq(p, ptr), Not(Eq(p, TNil))) }}}, nil
+	case strings.HasPrefix(item, "ghost(") && strings.HasSuffix(item, ")"):
+		gd, ok := e.u.eng.cs.Ghosts[item[6:len(item)-1]]
+		if !ok {
+			return nil, fmt.Errorf("modifies %s: unknown ghost", item)
+		}
+		return []FrameItem{{heap: "G." + gd.Name, text: item, pred: func(p Term) Term { return TTrue }}}, nil
 	case strings.HasPrefix(item, "heap(") && strings.HasSuffix(item, ")"):
 		gt, _ := e.resolveType(item[5 : len(item)-1])
 		if gt == nil {
@@ -1067,4 +1106,19 @@ func typeSyntax(s *SExpr) string {
 		}
 	}
 	return "?"
+}
+
+// ghostHeap: the current value of a declared ghost map (nested arrays keyed by its parameters).
+func (e *SpecEnv) ghostHeap(gd *GhostDecl) (Term, types.Type) {
+	pe := *e
+	if p := e.u.eng.typesPkgFor(gd.Pkg); p != nil {
+		pe.pkg = p
+	}
+	gt, vs := pe.resolveType(gd.Ret)
+	sort := vs
+	for i := len(gd.Params) - 1; i >= 0; i-- {
+		_, ks := pe.resolveType(gd.Params[i].Type)
+		sort = ArraySort(ks, sort)
+	}
+	return e.cur.Heap("G."+gd.Name, sort), gt
 }
